@@ -74,6 +74,8 @@ type c08RunVerdictParams struct {
 	CancelInSetup bool `json:"cancel_in_setup,omitempty"`
 	// SetupMark: the first body reports a non-fatal error through the handle captured in setup (fails nothing)
 	SetupMark bool `json:"setup_mark,omitempty"`
+	// FarLimit (ending duration): max-iterations 1000 next to the tolerances; the run ends by its duration long before
+	FarLimit bool `json:"far_limit,omitempty"`
 }
 
 type c08DropVerdictParams struct {
@@ -229,6 +231,10 @@ func c08RunVerdict(c *core.Case, o *core.Outcome) {
 	switch p.Ending {
 	case "duration":
 		spec.MaxDurationMS = 300
+		if p.FarLimit {
+			// a limit the run never gets near: the tolerances still apply to the iterations that did run
+			spec.MaxIterations = 1000
+		}
 	case "limit":
 		spec.MaxIterations = uint64(total)
 		spec.MaxDurationMS = 2000
@@ -484,7 +490,20 @@ func init() {
 						p.Fail = 0
 					}
 				}
+				p.FarLimit = k%2 == 1
 				c := core.MkCase("C08", "runverdict", k, seed, p)
+				c.Race = k%2 == 0
+				c.TimeoutMS = 60000
+				cs = append(cs, c)
+			}
+			// a rate tolerance next to a far-away max-iterations, the run cut short by its duration: the share is taken over
+			// the iterations that ran
+			for k, mode := range []string{"users", "constant", "custom"} {
+				if tier == "quick" && k == 2 {
+					break
+				}
+				p := c08RunVerdictParams{Mode: mode, Ending: "duration", Fail: 2 + k, MaxR: []int{30, 10, 45}[k], Ignore: true, Conc: 2, FarLimit: true}
+				c := core.MkCase("C08", "runverdict", 700+k, seed, p)
 				c.Race = k%2 == 0
 				c.TimeoutMS = 60000
 				cs = append(cs, c)
